@@ -674,7 +674,8 @@ class NetworkGraph(AbstractBaseIR):
 
             buffer_eqs = []
             for i, (d, sidx) in enumerate(zip(delays, source_idx)):
-                var_delayed = f"past({var}, {d})" if type(d) is float or d != 1 else var
+                # only the integer marker 1 stands for "no delay"; a delay of 1.0 time units (any float type) is a delay
+                var_delayed = f"past({var}, {d})" if isinstance(d, float) or d != 1 else var
                 if len(target_shape) < 1 or (len(target_shape) == 1 and target_shape[0] == 1):
                     buffer_eqs.append(f"{var}_buffered{buffer_id} = {var_delayed}")
                 else:
@@ -1037,7 +1038,7 @@ class NetworkGraph(AbstractBaseIR):
 
     def _preprocess_delay(self, delay, discretize=True):
         return int(np.round(delay / self.step_size, decimals=0)) if discretize and not self.step_size_adaptation \
-            else delay
+            else float(delay)
 
     def _bool_to_idx(self, v):
         v_idx = np.argwhere(v).squeeze()
